@@ -10,6 +10,7 @@ import (
 	"fmt"
 	"io"
 	"math/big"
+	"sync"
 	"testing"
 
 	patecdsa "github.com/cloudflare/pat-go/ecdsa"
@@ -557,51 +558,78 @@ func TestWrapAroundSignatures(t *testing.T) {
 // TestManySignaturesDER: scalars with leading zero BYTES (two or more) come up once in ~2^16 signatures; only volume finds
 // an encoder that mishandles them. Every ASN.1 signature must parse under crypto/ecdsa and be the minimal DER of its (r, s).
 func TestManySignaturesDER(t *testing.T) {
-	s := rt.S("many-signatures-der").SetRule("SignASN1 / PrivateKey.Sign on P-224 and P-256 with one key per shard, a counter as digest and a DRBG: quick 40000, thorough 2000000 signatures (split over shards); each output must verify under crypto/ecdsa.VerifyASN1 and equal the minimal DER encoding of the (r, s) it decodes to. non-trivial = signature whose r or s has at least one leading zero byte; distinct by construction (distinct digests)")
-	total := rt.N(40000, 2000000)
+	s := rt.S("many-signatures-der").SetRule("SignASN1 / PrivateKey.Sign on P-224 and P-256 with one key per worker, a counter as digest and a DRBG per worker (8 workers per process): quick 600000, thorough 16000000 signatures (split over shards; P-224 gets a quarter of P-256's share); each output must equal the minimal DER encoding of the (r, s) it decodes to, and - all those with a short r or s, and every 8th of the others - verify under crypto/ecdsa.VerifyASN1 the minimal DER encoding of the (r, s) it decodes to. non-trivial = signature whose r or s has at least one leading zero byte; distinct by construction (distinct digests)")
+	total := rt.N(600000, 16000000)
+	const workers = 8
 	var cnt, small int64
-	rnd := rt.NewDRBG([]byte(fmt.Sprintf("many signatures %d %d", rt.BaseSeed, rt.Shard)))
-	for ci, c := range []elliptic.Curve{elliptic.P256(), elliptic.P224()} {
-		d := new(big.Int).SetBytes(bytes.Repeat([]byte{byte(0x17 + ci + rt.Shard)}, 24))
-		pk, _ := patecdsa.CreateKey(c, d.Bytes())
-		x, y := c.ScalarBaseMult(d.Bytes())
-		std := &stdecdsa.PublicKey{Curve: c, X: x, Y: y}
-		size := (c.Params().N.BitLen() + 7) / 8
-		for i := 0; i < total/2; i++ {
-			digest := []byte(fmt.Sprintf("digest %d %d", rt.Shard, i))
-			var der []byte
-			var err error
-			if i%2 == 0 {
-				der, err = patecdsa.SignASN1(rnd, pk, digest)
-			} else {
-				der, err = pk.Sign(rnd, digest, crypto.SHA256)
-			}
-			cnt++
-			if err != nil {
-				rt.Report(t, "C13/many/sign-error", "", nil, "SignASN1: %v", err)
-				break
-			}
-			if !stdecdsa.VerifyASN1(std, digest, der) {
-				rt.Report(t, "C13/many/signasn1-rejected-by-std", "", nil, "signature %d on %s is rejected by crypto/ecdsa.VerifyASN1: %x", i, c.Params().Name, der)
-				break
-			}
-			// minimal DER of what it decodes to
-			var r, sv big.Int
-			if rest := der; len(rest) > 8 {
-				// cheap decode: SEQUENCE, two INTEGERs with short lengths
-				rl := int(rest[3])
-				r.SetBytes(rest[4 : 4+rl])
-				sv.SetBytes(rest[6+rl:])
-				if !bytes.Equal(derSeq(derInt(&r), derInt(&sv)), der) {
-					rt.Report(t, "C13/many/der-not-minimal", "", nil, "signature %d on %s is not the minimal DER of its (r, s): %x", i, c.Params().Name, der)
-					break
-				}
-				if len(r.Bytes()) <= size-1 || len(sv.Bytes()) <= size-1 {
-					small++
-				}
-			}
-		}
+	var mu sync.Mutex
+	var wg sync.WaitGroup
+	report := func(sig, format string, args ...any) {
+		mu.Lock()
+		defer mu.Unlock()
+		rt.Report(t, sig, "", nil, format, args...)
 	}
+	for w := 0; w < workers; w++ {
+		wg.Add(1)
+		go func(w int) {
+			defer wg.Done()
+			rnd := rt.NewDRBG([]byte(fmt.Sprintf("many signatures %d %d %d", rt.BaseSeed, rt.Shard, w)))
+			var myCnt, mySmall int64
+			for ci, c := range []elliptic.Curve{elliptic.P256(), elliptic.P224()} {
+				d := new(big.Int).SetBytes(bytes.Repeat([]byte{byte(0x17 + ci + rt.Shard + 31*w)}, 24))
+				pk, _ := patecdsa.CreateKey(c, d.Bytes())
+				x, y := c.ScalarBaseMult(d.Bytes())
+				std := &stdecdsa.PublicKey{Curve: c, X: x, Y: y}
+				size := (c.Params().N.BitLen() + 7) / 8
+				n := total / 2 / workers
+				if ci == 1 {
+					n /= 4 // P-224 has no assembly: a quarter of the volume
+				}
+				for i := 0; i < n; i++ {
+					digest := []byte(fmt.Sprintf("digest %d %d %d", rt.Shard, w, i))
+					var der []byte
+					var err error
+					if i%2 == 0 {
+						der, err = patecdsa.SignASN1(rnd, pk, digest)
+					} else {
+						der, err = pk.Sign(rnd, digest, crypto.SHA256)
+					}
+					myCnt++
+					if err != nil {
+						report("C13/many/sign-error", "SignASN1: %v", err)
+						break
+					}
+					// minimal DER of what it decodes to
+					var r, sv big.Int
+					isSmall := false
+					if rest := der; len(rest) > 8 {
+						// cheap decode: SEQUENCE, two INTEGERs with short lengths
+						rl := int(rest[3])
+						r.SetBytes(rest[4 : 4+rl])
+						sv.SetBytes(rest[6+rl:])
+						if !bytes.Equal(derSeq(derInt(&r), derInt(&sv)), der) {
+							report("C13/many/der-not-minimal", "signature %d on %s is not the minimal DER of its (r, s): %x", i, c.Params().Name, der)
+							break
+						}
+						if len(r.Bytes()) <= size-1 || len(sv.Bytes()) <= size-1 {
+							mySmall++
+							isSmall = true
+						}
+					}
+					// the standard verifier sees every signature with a short r or s, every malformed-looking one, and every 8th of the rest
+					if (isSmall || len(der) <= 8 || i%8 == 0) && !stdecdsa.VerifyASN1(std, digest, der) {
+						report("C13/many/signasn1-rejected-by-std", "signature %d on %s is rejected by crypto/ecdsa.VerifyASN1: %x", i, c.Params().Name, der)
+						break
+					}
+				}
+			}
+			mu.Lock()
+			cnt += myCnt
+			small += mySmall
+			mu.Unlock()
+		}(w)
+	}
+	wg.Wait()
 	s.EvalN(cnt)
 	s.NontrivialEnum(small)
 	s.Sample(func() any { return map[string]any{"signatures": cnt, "with_leading_zero_byte": small} })
